@@ -244,6 +244,7 @@ func lexSegment(l *lexer) error {
 	r := l.next()
 	switch {
 	case unicode.IsLetter(r):
+		l.backup() // count the first letter too: a literal may be a single character
 		return lexLiteral(l)
 	case r == '*':
 		rn := l.next()
